@@ -229,6 +229,39 @@ class Coalesce:
         return n
 
 
+class HoldCoalesce:
+    """Delay everything sent by party `src` until nothing else moves (or src has died), then deliver each of
+    its links' backlog in ONE data_received call: many complete frames followed, after a crash cut, by a
+    partial one.  Everything else is delivered FIFO."""
+
+    def __init__(self, src, patience=8):
+        self.src, self.patience, self.quiet = src, patience, 0
+
+    def deliver(self, net):
+        n = 0
+        for link in list(net.order):
+            if link[0] == self.src:
+                continue
+            while net.queues[link]:
+                n += net.deliver(link)
+        held = [l for l, q in net.queues.items() if q and l[0] == self.src]
+        if n:
+            self.quiet = 0
+        else:
+            self.quiet += 1
+        if held and (self.src in net.dead or self.quiet >= self.patience):
+            self.quiet = 0
+            for link in sorted(held):
+                q = net.queues[link]
+                data = b''.join(q)
+                q.clear()
+                q.append(data)
+                net.order = collections.deque(l for l in net.order if l != link)
+                net.order.append(link)
+                n += net.deliver(link)
+        return n
+
+
 class RandomOrder:
     """Each round deliver a random number of randomly chosen head chunks, randomly split."""
 
